@@ -13,6 +13,12 @@ ADDITIONAL REQUIREMENT FOR THIS ROUND (harder, DIFFERENT mutants wanted):
   - Mutant A must manifest only through an INTERACTION: between two different public functions / modules / drivers (state, files, settings or objects that one leaves behind and another consumes), between parent and worker processes (something inherited or not inherited across fork, per-worker state, worker count, strategy), between an object and its second use, or between a run and what the caller legitimately does with the returned objects. A single call of one function in a fresh process must still satisfy the property.
   - Mutant B must depend on a BOUNDARY or DEGENERATE class of legitimate inputs: values exactly on a branch boundary or symmetry point (equal, coincident, aligned, exact multiple, exactly zero wind component, neutral stratification, measurement point exactly on the domain edge), degenerate shapes (a single row or column, one output level given as a one-element list, the top level, one tower, one time step), extreme but valid magnitudes, or an option combination nobody tests together. Preferably via two cooperating code sites.
   - Prefer changes in guards, comparisons (< vs <=), index/slice arithmetic, loop bounds, default handling, bookkeeping, (de)serialisation and process/worker plumbing over edits of the central formulas.
+""","w5":"""
+ADDITIONAL REQUIREMENT FOR THIS ROUND (harder, DIFFERENT mutants wanted):
+  - Earlier rounds already produced many mutants of the following kinds; do NOT produce these again: a memo/cache with an incomplete key or keyed by array identity; persistent/reused work arrays or buffers; integer-dtype truncation through zeros_like / empty_like / np.array(int input); in-place modification of the caller's argument arrays or of the configuration object; a shared mutable default dict; fftshift vs ifftshift on odd sizes; shifting the footprint by the requested halo instead of the padded whole cells; `//` vs int(/) pad widths; sorting / un-sorting the output levels; `x or default` on a value that may be zero; `and` for `or` in a guard; tower names sorted alphabetically; as_completed instead of ordered collection; returning internal arrays of a cache without copying.
+  - Mutant A must break the property through the OUTPUT CONTRACT or the ACCEPT/REJECT behaviour rather than through the numbers of the main field in an ordinary call: shapes, dtypes, squeezing of singleton axes, the order of keys / list entries, labels, coordinates or metadata attached to the wrong item, outputs that alias each other (two returned arrays sharing memory, a returned grid that is a view of another result), wrong handling of one branch of an option (e.g. only footprint mode, only analytic mode, only multi-level output, only single precision, only one parallel strategy), accepting input that must be rejected, or rejecting / crashing on input that is legitimate.
+  - Mutant B must be NUMERICAL-REGIME dependent: it must stay within the property's tolerance for ordinary magnitudes and show only in a particular legitimate regime - very fine or very coarse vertical grids, many layers, very large or very small domains or heights, strong stability or strong instability, very small roughness length, single precision, large mode counts, high aspect ratio, many towers / time steps - e.g. through a reordering of floating-point operations, a premature cast to lower precision, accumulation in the wrong precision, a tolerance / epsilon / clipping that is harmless at ordinary magnitudes, an approximation switched on beyond a threshold, or an overflow / underflow guard.
+  - Prefer changes in dtype / precision handling, assembly of the returned objects, validation code and thresholds over edits of the central formulas.
 """}
 p=props[pid]
 wt="/tmp/wt/%s%s"%(pid,wave)
